@@ -54,6 +54,9 @@ CLAUSES = {
     "C06.tamper-ref-accepts": "the independent reader accepts a corrupted authenticated byte (oracle self-check)",
     "C06.auto-offsets-collide": "with every image offset left automatic, update_fields() places images so that they overlap "
                                 "each other or a container (export then refuses its own layout)",
+    "C06.valid-layout-refused": "export() refuses with 'Image overlapping' although interval arithmetic on the container "
+                                "headers SPSDK built shows every image inside no other image and behind the containers "
+                                "(disc = Image overlapping:<explicit|automatic>-offsets-disjoint)",
     "C06.builder-refuses-own-layout": "load_from_config accepted the configuration, but export() (its own verify()) refuses the "
                                       "image because of an ERROR record about a field SPSDK itself computes from the layout "
                                       "(disc = record, normalised; classification: REFUSAL_TABLE)",
@@ -84,6 +87,8 @@ HASH_NAMES = {"sha256": "sha256", "sha384": "sha384", "sha512": "sha512", "sha3_
               "sha3_512": "sha3_512", "shake_128_output_256": "shake_128/256", "shake_256_output_512": "shake_256/512", "sm3": "sm3"}
 GDET = {"disabled": 0, "enabled_eleapi": 1, "enabled": 2}
 CERT_PERMS = {"container": 0x01, "debug": 0x02, "secure_fuse": 0x08, "return_life_cycle": 0x10, "patch_fuses": 0x40}
+
+ORDER_MODES = ("descending", "middle-first", "desc-auto", "auto-desc")  # explicit offsets not ascending inside a container
 
 # dimensions that change the layout of the authenticated bytes (k = 2 cases over these get the tamper sweep as well)
 AUTH_DIMS = {"nc", "ni", "enc", "srk", "sid", "cert", "cv", "bc", "hash", "sza", "off", "mem", "ca"}
@@ -125,7 +130,9 @@ REFUSAL_TABLE = [
      "certificate key record serialisation"),
     (r"/SRK DataN exists$", "computed", "SRK data of the selected key is attached by SPSDK"),
     (r"/Certificate/Signature offset$", "computed", "offset of the certificate signature"),
-    (r"/Image overlapping$", "other-clause", "explicit offsets are the user's; automatic placement -> C06.auto-offsets-collide"),
+    (r"/Image overlapping$", "other-clause", "decided by interval arithmetic on the built container headers: really colliding "
+     "explicit offsets are the user's (rejected), colliding automatic ones -> C06.auto-offsets-collide, disjoint ones -> "
+     "C06.valid-layout-refused"),
     (r"/Container signing/(Used SRK key ID|Signature|SRK Table & Signature block presence|Signature counts)$", "user",
      "revoke mask / signing key / SRK table supplied by the user"),
     (r"/Signature #N/Signature$", "user", "signing key supplied by the user (container version 2)"),
@@ -232,7 +239,8 @@ def dims_for(info: dict, kind: str) -> dict:
         "nc": [1, 2, 3, 4],
         "ni": [1, 2, 3, 8, 9],
         "sz": list(SIZES),
-        "off": ["auto", "explicit", "mixed", "low", "unaligned", "overlap", "in-container"],
+        "off": ["auto", "explicit", "mixed", "low", "unaligned", "descending", "middle-first", "desc-auto", "auto-desc",
+                "overlap", "in-container"],
         "core": [bc] + [c for c in sorted(info["cores"]) if c != bc],
         "type": ["executable"] + sorted({t for g in info["types"].values() for t in g} - {"executable"}),
         "hash": ["sha256", "sha384", "sha512"] + (["sha3_256", "sha3_384", "sha3_512", "shake_128_output_256",
@@ -324,6 +332,21 @@ def explicit_offset(p: dict, ci: int, ii: int, nc_total: int) -> int:
         return start + idx * 0x2000
     if mode == "mixed":
         return start + idx * 0x2000 if ii % 2 == 0 else 0
+    # explicit offsets that are NOT ascending inside a container (the image array stays in configuration order)
+    ni = p["ni"]
+    if mode == "descending":
+        return start + (ci * 9 + (ni - 1 - ii)) * 0x2000
+    if mode == "middle-first":  # array order = slots 1, 2, ..., ni-1, 0: the furthest image is neither first nor last
+        pos = (ii + 1) % ni
+        return start + (ci * 9 + pos) * 0x2000
+    if mode == "desc-auto":  # descending explicit offsets, the last image automatic (it follows the previous, lowest one)
+        if ii == ni - 1 and ni > 1:
+            return 0
+        return start + (ci * 9 + (ni - 1 - ii)) * 0x2000
+    if mode == "auto-desc":  # first image automatic, the others explicit in descending order behind it
+        if ii == 0 and ni > 1:
+            return 0
+        return start + (ci * 9 + (ni - ii)) * 0x2000 + (0x2000 if ci == 0 else 0)
     if mode == "low":
         low = (nc_total * slot + 0xFFF) // 0x1000 * 0x1000
         return low + idx * 0x2000
@@ -833,6 +856,24 @@ def run_case(case: dict, seed: int) -> dict:
                     raise
                 except Exception as e2:  # noqa
                     out["count"]["obs:bypass-export-failed:" + type(e2).__name__] = 1
+            if e.stage == "export" and e.img is not None and any(q.endswith("/Image overlapping") for q in e.paths):
+                # do the images really collide?  own interval arithmetic on the container headers SPSDK built (independent of
+                # AHABImage.__len__ / image_info(), which is what the overlap record is computed from)
+                try:
+                    lay = ahab_ref.layout_problems([bytes(c.export()) for c in e.img.ahab_containers])
+                    if lay is None:
+                        out["count"]["obs:layout-headers-unreadable"] = 1
+                    elif not lay:
+                        auto_l = p["off"] == "auto" or p["mem"] == "serial_downloader"
+                        out["viol"].append(("C06.valid-layout-refused", "Image overlapping:%s-offsets-disjoint" % ("automatic" if auto_l else "explicit"),
+                                            f"export() refuses with {e.paths[:2]}, but no image interval of the built container headers "
+                                            f"touches another image or a container (offset mode {p['off']})"))
+                    else:
+                        out["count"]["overlap_refusal_confirmed_by_intervals"] = 1
+                except (core.Watchdog, core.HarnessError):
+                    raise
+                except Exception as e3:  # noqa
+                    out["count"]["obs:layout-check-failed:" + type(e3).__name__] = 1
             if e.stage == "export" and e.paths:
                 # whose fault is the refusal?  (REFUSAL_TABLE)
                 auto = p["off"] == "auto" or p["mem"] == "serial_downloader"
@@ -1228,9 +1269,12 @@ def enumerate_cases(tier: str, sv: list) -> dict:
             continue
         seen_struct.add(skey)
         for mem in MEMORIES:
-            for off in ("auto", "explicit", "mixed", "low", "unaligned"):
-                for sz in ((1, 13, 1026, 513) if quick else SIZES[:-1]):
+            for off in ("auto", "explicit", "mixed", "low", "unaligned", "descending", "middle-first", "desc-auto", "auto-desc"):
+                order_mode = off in ORDER_MODES
+                for sz in ((13, 1026) if quick and order_mode else (1, 13, 1026, 513) if quick else SIZES[:-1]):
                     for ni in ((1, 3) if quick else (1, 2, 3)):
+                        if order_mode and ni == 1:
+                            continue  # one image has no order
                         for nc in ((1, 2) if quick else (1, 2, 3)):
                             d = {"mem": mem, "off": off, "sz": sz, "ni": ni, "nc": nc}
                             d = {n: v for n, v in d.items() if v != dims_for(info, "u")[n][0]}
